@@ -143,8 +143,12 @@ void harness(void) {
     struct jls_raw_s * raw = NULL;
     int32_t rc = jls_raw_open(&raw, "f", "w");
     ASSUME(rc == 0 && raw != NULL);
+#ifdef FIXED_PLEN
+    const uint32_t plen = FIXED_PLEN;   /* a symbolic length makes the realloc size symbolic (measured: no verdict at 11 GB) */
+#else
     SYM_U32(plen);
     ASSUME(plen <= PMAX);
+#endif
     static uint8_t pay[PMAX];
     SYM_BYTES(pay, PMAX, "payload");
     struct jls_chunk_header_s h;
